@@ -188,8 +188,8 @@ func run(rec *Rec, adds []add, closeDelta uint32, div TF) {
 			d := x.d
 			prevDest, prevTracks = &d, rec.Dtracks
 		}
-	case <-time.After(10 * time.Second):
-		rec.Pan, rec.Ddiv, rec.PrevIntact, rec.Again = "timeout: ConvertToSMF1 did not return within 10 s", tfOf(nil), true, true
+	case <-time.After(30 * time.Second):
+		rec.Pan, rec.Ddiv, rec.PrevIntact, rec.Again = "timeout: ConvertToSMF1 did not return within 30 s", tfOf(nil), true, true
 	}
 }
 
